@@ -167,6 +167,40 @@ func TestVerifC02_ExactlyOnce(t *testing.T) {
 	})
 }
 
+// TestVerifC02_Timeouts: the same exactly-once oracle when connections end because the client gives up on them: a
+// ResponseTimeout of 5..20 ms and silently dropped PUBREC / PUBCOMP / PUBACK / SUBACK (the link stays up, the client
+// closes it), alone or together with cuts - also for messages that are still queued behind the one that timed out.
+func TestVerifC02_Timeouts(t *testing.T) {
+	vRun(t, "C02", vOpts{CurFile: true, ReplayReps: 10}, func(rt *rapid.T) e4Case {
+		o := e4OptsC02
+		o.MaxFaults = 2
+		c := e4GenCase(rt, o)
+		c.Cfg.CleanSession, c.Cfg.SessionKept = false, true
+		c.Cfg.RespTimeoutMs = rapid.SampledFrom([]int{5, 10, 20}).Draw(rt, "respTimeoutMs2")
+		c.Cfg.OnErrorSleepUs = 0
+		n := rapid.IntRange(1, 3).Draw(rt, "nDrops")
+		for i := 0; i < n; i++ {
+			c.Faults = append(c.Faults, e4Fault{Kind: "dropAck", Conn: rapid.IntRange(1, i+2).Draw(rt, "dconn"),
+				Type: rapid.SampledFrom([]int{rtPubRec, rtPubRec, rtPubComp, rtPubComp, rtPubAck, rtSubAck}).Draw(rt, "dack"), Nth: rapid.IntRange(1, 3).Draw(rt, "dnth")})
+		}
+		return c
+	}, func(tb rapid.TB, c e4Case) {
+		e4Check(tb, "C02", c, e4OracleC02, func(r *e4Result) (bool, []string) {
+			labels, hit := e4C02Positions(r)
+			dropped := false
+			for _, e := range r.Log {
+				if e.Kind == "B-DROPPED" {
+					dropped = true
+				}
+			}
+			if dropped {
+				labels = append(labels, "c02:ack-dropped")
+			}
+			return hit || dropped, labels
+		})
+	})
+}
+
 var e4OptsC03 = e4GenOpts{MaxSteps: 14, QoSWeights: []int{2, 3, 3}, SubWeight: 3, MaxFaults: 6, AllowRefuse: true, Outages: true, PreConnect: true}
 
 func TestVerifC03_Order(t *testing.T) {
@@ -214,6 +248,10 @@ func TestVerifC05_ViaRetry(t *testing.T) {
 				c.Steps[i].ID = 40000 + c.Steps[i].Idx
 			}
 		}
+		// CONNECT must carry the requested keep-alive whatever the ping interval of the reconnecting client is
+		// (intervals of seconds: no ping is ever due within a case)
+		c.Cfg.KeepAliveS = rapid.SampledFrom([]int{0, 0, 60, 65535}).Draw(rt, "keepAliveS")
+		c.Cfg.PingMs = rapid.SampledFrom([]int{0, 0, 2000, 90000}).Draw(rt, "pingMs")
 		return c
 	}, func(tb rapid.TB, c e4Case) {
 		e4Check(tb, "C05", c, e4OracleC05, func(r *e4Result) (bool, []string) {
